@@ -109,24 +109,44 @@ func runRegList() {
 							rs = append(rs, alpha.NumberRegisters[i])
 						}
 						rl.AppendNumberRegisterStruct(rs...)
+						// the caller goes on using its own slice: overwrite it, spare capacity included
+						rs = rs[:cap(rs)]
+						for i := range rs {
+							rs[i] = veregister.NumberRegisterStruct{}
+						}
 					case "aT":
 						var rs []veregister.TextRegisterStruct
 						for _, i := range idxList(arg) {
 							rs = append(rs, alpha.TextRegisters[i])
 						}
 						rl.AppendTextRegisterStruct(rs...)
+						// the caller goes on using its own slice: overwrite it, spare capacity included
+						rs = rs[:cap(rs)]
+						for i := range rs {
+							rs[i] = veregister.TextRegisterStruct{}
+						}
 					case "aE":
 						var rs []veregister.EnumRegisterStruct
 						for _, i := range idxList(arg) {
 							rs = append(rs, alpha.EnumRegisters[i])
 						}
 						rl.AppendEnumRegisterStruct(rs...)
+						// the caller goes on using its own slice: overwrite it, spare capacity included
+						rs = rs[:cap(rs)]
+						for i := range rs {
+							rs[i] = veregister.EnumRegisterStruct{}
+						}
 					case "aF":
 						var rs []veregister.FieldListRegisterStruct
 						for _, i := range idxList(arg) {
 							rs = append(rs, alpha.FieldListRegisters[i])
 						}
 						rl.AppendFieldListRegisterStruct(rs...)
+						// the caller goes on using its own slice: overwrite it, spare capacity included
+						rs = rs[:cap(rs)]
+						for i := range rs {
+							rs[i] = veregister.FieldListRegisterStruct{}
+						}
 					case "g":
 						// observe the combined view in the middle of the history
 						g := rl.GetRegisters()
